@@ -722,7 +722,8 @@ fn resize(tier: Tier) -> Vec<Case> {
 fn quantize(_tier: Tier) -> Vec<Case> {
     let mut out = Vec::new();
     let vals = [0.0, 0.5, 1.5, 2.5, -0.5, -1.5, 3.25, 100.0, -100.0, 300.0, -300.0, 127.5, 63.75, -0.25, 7.0];
-    for ds in [vec![5usize], vec![2, 3], vec![2, 3, 2], vec![1, 2, 2, 3], vec![17]] {
+    // [3, 1400]: above the 4096-element chunk of the parallel split
+    for ds in [vec![5usize], vec![2, 3], vec![2, 3, 2], vec![1, 2, 2, 3], vec![17], vec![3, 1400]] {
         let x = fill_table(Dt::F32, &ds, &vals, 1, 0);
         let r = ds.len() as i64;
         for zdt in [None, Some(Dt::U8), Some(Dt::I8)] {
@@ -837,6 +838,17 @@ fn dynamic_quantize(_tier: Tier) -> Vec<Case> {
         for ds in [vec![9usize], vec![3, 3], vec![2, 2, 3], vec![17], vec![2, 33]] {
             out.push(Case::new("DynamicQuantizeLinear", name, vec![Some(fill_table(Dt::F32, &ds, &t, 1, 0))]).outs(3));
         }
+    }
+    // more than one 4096-element chunk of the parallel min/max reduction; the extremes occur
+    // once each, in different chunks (and not in the first one)
+    for (lo_at, hi_at) in [(4199usize, 4097usize), (4097, 8300), (100, 8399)] {
+        let mut t = vec![0.0f64; 8400];
+        for (i, v) in t.iter_mut().enumerate() {
+            *v = [1.0, 2.5, 3.5, 0.5, -1.5, 100.0][i % 6];
+        }
+        t[lo_at] = -51.0;
+        t[hi_at] = 204.0;
+        out.push(Case::new("DynamicQuantizeLinear", "range -51..204, extremes in different parallel chunks", vec![Some(fill_table(Dt::F32, &[4, 2100], &t, 1, 0))]).outs(3));
     }
     out
 }
